@@ -221,6 +221,15 @@ theorem C15_output_order_independent (g g' : Graph) (cs cs' : List (List Nat))
 
 example : cycleGroups [[4, 3], [2, 1, 0], [5]] = cycleGroups [[5], [0, 2, 1], [3, 4]] := by decide
 
+/-- Non-vacuity of the order-independence theorems: the same edges in two dict/set orders;
+Tarjan discovers the components in different orders and with different member orders, the
+emitted groups coincide. -/
+example :
+    let g : Graph := [(0, [1, 3]), (1, [0]), (2, [2]), (3, [4]), (4, [3])]
+    let g' : Graph := [(4, [3]), (2, [2]), (3, [4]), (1, [0]), (0, [3, 1])]
+    findCycles g = .ok [[4, 3], [1, 0], [2]] ∧ findCycles g' = .ok [[3, 4], [2], [0, 1]] ∧
+    cycleGroups [[4, 3], [1, 0], [2]] = cycleGroups [[3, 4], [2], [0, 1]] := by decide
+
 /-- `_find_dependencies`: `a` gets an edge to `b` exactly when some reference below `a`
 that is outside attributes — and, for bare references (enum constants), outside atomic
 types — has head `b`. -/
